@@ -22,6 +22,12 @@ CHECKS = {
  "C06": dict(engine="lossy-channel", cat="fault_enumeration", ref="3.5",
    text="Reference-multiplexed streams go through a PacketChannel; for half of the streams EVERY single-packet duplication position and EVERY single-packet deletion position is executed (exhaustive per stream), the other half get seeded multi-fault plans (loss bursts up to 14 per PID, duplicates of first/middle/last/single packets, duplicates delayed behind other PIDs, dup+loss), some streams carrying PES payloads full of start-code patterns. Against the fault-free baseline: a duplicate leaves PES PIDs identical and removes nothing on PSI PIDs (extra deliveries must repeat baseline data); after loss every delivered datum equals a baseline datum in order, other PIDs are identical, and only units that lost a packet or precede a gap may be missing. Streams are sampled; fault positions per stream are enumerated.",
    note="Trusted: reference multiplexer and the per-packet unit bookkeeping. Scope: duplicates are byte-identical and immediate on their PID; <=14 consecutive losses per PID with a later surviving packet (15 losses repeat the counter = a duplicate by definition)."),
+ "C07": dict(engine="interleave", cat="exploration", ref="3.6",
+   text="The per-PID packet queues of a reference stream are merged under 2-4 seeded order-preserving schedules (uniform, bursty, starvation, reverse priority), each PID is also demuxed alone (PMT PIDs with PID 0), null / adaptation-only / transport-error packets are inserted at seeded positions and one non-PAT PID is corrupted (garbage payloads and/or loss); every PID's delivered sequence must be identical in all variants (nothing is compared across PIDs). Sampling of the schedule space.",
+   note="Trusted: reference multiplexer and scheduler. Schedules keep the relative order of PID 0 and PMT PIDs; errors returned for corrupted PIDs / TEI packets are skipped."),
+ "C08": dict(engine="read-schedule", cat="exploration", ref="3.7",
+   text="One reference stream is read through 10-24 SimReaders per run that differ only in read schedule (fixed chunks 1..400, seeded lists, one boundary in the first 400 bytes, EOF with the last bytes), reader kind (seekable, real bufio.Reader, plain), explicit vs auto-detected packet size and 188+k framing (k in 1..4,16); NextPacket and NextData sequences must equal the canonical run (explicit 188, one read); plain readers with auto-detection must agree with each other.",
+   note="Trusted: reference multiplexer/re-framer. Scope: auto-detection needs >=2 packets and no 0x47 in bytes 188..size-1; bufio buffers >= 256 bytes."),
  "C17": dict(engine="muxhist", cat="exploration", ref="3.4",
    text="Same histories; refinement against the MuxModel: tables before the first unit, automatic PAT+PMT exactly when the accepted-call count reaches the period or RAI on the PCR PID, nowhere else except explicit WriteTables; PMT content = model stream list in insertion order with type/descriptors/PCR PID; PAT maps program 1 to the PMT PID; automatic PIDs unique and outside reserved ranges; version +1 mod 32 iff content changed.",
    note="Trusted: MuxModel transition rules (DESIGN App. A). Calls rejected for an invalid argument may or may not count towards the period (both accepted)."),
